@@ -1,8 +1,257 @@
+(* Properties_C15.v — Bloom filter: no false negatives in any representation; bitwise set algebra.
+   Only statements, closed by [exact]; proofs live in BloomProofs.v.
+
+   Vocabulary (BloomDefs.v / BloomProofs.v):
+     core_update / core_qau / core_query / core_union / core_intersect / core_invert / core_reset / core_bits_used
+         the operations of bloom_filter_impl.hpp on (cached fields, bit array), with the count written through to wrapped
+         memory as an explicit effect; the first argument [true] selects the REPAIRED code (fixes/15_*.patch), which is what
+         BloomDefs.step extracts and runs against the implementation; [false] is the code before the repairs
+         (Regression_bloom.v).
+     cst = (s_f, s_bits, s_mcnt)     one filter object: cached fields, the bit array it addresses, the count stored at
+                                     byte 24 of the caller memory it lives in (unused for owned filters)
+     frun fx idx ops s               the object after ANY list of operations (update, query_and_update, union with ANY
+                                     bit array, intersect, invert, reset, get_bits_used), idx = ANY index function
+     indices_of H f                  the double-hashing indices ((h0 + i*h1) >> 1) mod capacity, i = 1..num_hashes, of ANY
+                                     hash function H (h0 = H item seed, h1 = H item h0)
+     view_of idx cap s v             v is one of: s itself / a copy, deserialize(serialize s), a read-only or writable wrap
+                                     of serialize s, a read-only or writable wrap (or deserialize) of the caller memory s
+                                     lives in, any compatible filter after union_with(s) and any further monotone history *)
 From Coq Require Import ZArith NArith List Bool Lia.
 From DS Require Import Word XXHash64 RunnerLib BloomDefs BloomProofs.
 Import ListNotations.
 Local Open Scope N_scope.
 
-Theorem C15_update_readonly_refused : forall fx f bits idx, f_ro f = true -> core_update fx f bits idx = None.
-Proof. exact core_update_ro. Qed.
-Print Assumptions C15_update_readonly_refused.
+(* ---------------------------------------------------------------------------------------------------------------- *)
+(* no false negatives                                                                                                 *)
+(* ---------------------------------------------------------------------------------------------------------------- *)
+
+(* THE property: for ANY hash function, ANY sound writable start state (fresh_start below: every constructor yields one),
+   ANY history containing an insertion of x (update or query_and_update) with no intersect / invert / reset after it,
+   EVERY view of the resulting state answers query(x) = true. *)
+Theorem C15_no_false_negative_in_any_view :
+  forall (H : list N -> N -> N) s0 pre ins post x v,
+  let idx := indices_of H (s_f s0) in
+  let cap := f_cap (s_f s0) in
+  cap <> 0 -> cap < two64 -> f_nh (s_f s0) <> 0 ->
+  inv cap s0 -> f_ro (s_f s0) = false ->
+  inserts ins x -> Forall monotone post -> Forall (op_ok cap) (pre ++ ins :: post) ->
+  view_of idx cap (frun true idx (pre ++ ins :: post) s0) v -> squery idx v x = true.
+Proof. exact nfn_every_view_hash. Qed.
+
+(* the same for an arbitrary index function (not only double hashing) *)
+Theorem C15_no_false_negative_any_index_function :
+  forall (idx : item -> list N) cap, cap < two64 -> (forall x i, In i (idx x) -> i < cap) ->
+  forall s0 pre ins post x v,
+  inv cap s0 -> f_ro (s_f s0) = false -> idx x <> [] ->
+  inserts ins x -> Forall monotone post -> Forall (op_ok cap) (pre ++ ins :: post) ->
+  view_of idx cap (frun true idx (pre ++ ins :: post) s0) v -> squery idx v x = true.
+Proof. exact nfn_every_view. Qed.
+
+(* start states: what the constructors build (owned: mem = None; over caller memory: stored count 0) *)
+Theorem C15_fresh_start : forall seed nh cap mem,
+  inv cap (mkS (mkF seed nh cap false false 0 mem 0) 0 0) /\ minv (mkS (mkF seed nh cap false false 0 mem 0) 0 0).
+Proof. intros. split; [apply fresh_inv|apply fresh_minv]. Qed.
+
+(* the wrap views of caller memory (V_memwrap / V_memdes) are available after EVERY history through a writable view:
+   the count stored in the memory is always the dirty marker or exact *)
+Theorem C15_memory_image_always_consistent :
+  forall (idx : item -> list N) cap, cap < two64 -> (forall x i, In i (idx x) -> i < cap) ->
+  forall s0 ops, is_wview s0 -> inv cap s0 -> minv s0 -> Forall (op_ok cap) ops ->
+  is_wview (frun true idx ops s0) /\ minv (frun true idx ops s0).
+Proof. exact memory_views_available. Qed.
+
+(* at the level of the bit array nothing is ever lost by a monotone history — both variants of the code, any start state *)
+Theorem C15_inserted_bits_stay_set :
+  forall fx (idx : item -> list N) s pre ins post x,
+  f_ro (s_f s) = false -> inserts ins x -> Forall monotone post ->
+  all_set (s_bits (frun fx idx (pre ++ ins :: post) s)) (idx x) = true.
+Proof. exact nfn_bits. Qed.
+
+(* query answers "absent" for an item whose index bits are all set only through the is_empty short-circuit *)
+Theorem C15_query_spec : forall (idx : item -> list N) s x,
+  squery idx s x = negb (is_empty (s_f s)) && all_set (s_bits s) (idx x).
+Proof. exact squery_spec. Qed.
+
+(* ---------------------------------------------------------------------------------------------------------------- *)
+(* exact count, query_and_update, set algebra                                                                        *)
+(* ---------------------------------------------------------------------------------------------------------------- *)
+
+(* get_bits_used after ANY history = number of set bits *)
+Theorem C15_bits_used_exact :
+  forall (idx : item -> list N) cap, cap < two64 -> (forall x i, In i (idx x) -> i < cap) ->
+  forall s ops, inv cap s -> Forall (op_ok cap) ops ->
+  f_cnt (s_f (fstep true idx (frun true idx ops s) FBitsUsed)) = popcount (s_bits (frun true idx ops s)).
+Proof. intros idx cap Hc Hl s ops Hi Hok. apply (bits_used_exact true idx cap Hc Hl); [assumption|assumption|now left]. Qed.
+
+(* query_and_update returns exactly whether all index bits were set before the call, and sets them *)
+Theorem C15_query_and_update_prior_membership : forall fx f bits l e ex,
+  core_qau fx f bits l = Some (e, ex) -> ex = all_set bits l /\ x_bits e = set_bits bits l.
+Proof. exact qau_prior_membership. Qed.
+
+Theorem C15_union_is_or : forall fx f bits o e,
+  core_union fx f bits o = Some e ->
+  x_bits e = N.lor bits o /\ f_cnt (x_f e) = popcount (N.lor bits o) /\ f_dirty (x_f e) = false /\
+  x_memw e = memw_of f (popcount (N.lor bits o)).
+Proof. exact union_is_or. Qed.
+
+Theorem C15_intersect_is_and : forall fx f bits o e,
+  core_intersect fx f bits o = Some e ->
+  x_bits e = N.land bits o /\ f_cnt (x_f e) = popcount (N.land bits o) /\ f_dirty (x_f e) = false /\
+  x_memw e = memw_of f (popcount (N.land bits o)).
+Proof. exact intersect_is_and. Qed.
+
+(* NOT within the capacity: every bit below the capacity is flipped, nothing above it is touched *)
+Theorem C15_invert_is_not : forall fx f bits e,
+  core_invert fx f bits = Some e ->
+  (forall j, N.testbit (x_bits e) j = if j <? f_cap f then negb (N.testbit bits j) else N.testbit bits j) /\
+  f_cnt (x_f e) = popcount (x_bits e) /\ f_dirty (x_f e) = false /\ x_memw e = memw_of f (popcount (x_bits e)).
+Proof. exact invert_is_not. Qed.
+
+Theorem C15_reset_clears : forall f e, core_reset f = Some e -> x_bits e = 0 /\ f_cnt (x_f e) = 0 /\ f_dirty (x_f e) = false.
+Proof. exact reset_clears. Qed.
+
+(* ---------------------------------------------------------------------------------------------------------------- *)
+(* the serialized image, byte level (serialize / deserialize / wrap are the functions of the extracted model; the     *)
+(* image bytes are compared with the implementation's by the correspondence runs)                                    *)
+(* ---------------------------------------------------------------------------------------------------------------- *)
+
+(* layout: 4 preamble longs | count at byte 24 (all ones = dirty) | bit array at byte 32; deserialize (bytes or stream)
+   restores configuration, count / dirty marker and every bit; anything may follow the image in the block *)
+Theorem C15_deserialize_serialize : forall f bits junk stream,
+  cfg_ok f -> in_range bits (f_cap f) -> is_empty f = false -> ser_cnt f < 2 ^ 64 ->
+  deser_filt (serialize f bits ++ junk) stream =
+  Some (mkF (f_seed f) (f_nh f) (f_cap f) (N.eqb (ser_cnt f) DIRTY) false (ser_cnt f) None bits).
+Proof. exact deser_serialize. Qed.
+
+Theorem C15_wrap_serialize : forall f bits junk b writable,
+  cfg_ok f -> in_range bits (f_cap f) -> is_empty f = false -> ser_cnt f < 2 ^ 64 ->
+  wrap_filt (serialize f bits ++ junk) b writable =
+  Some (mkF (f_seed f) (f_nh f) (f_cap f) (N.eqb (ser_cnt f) DIRTY) (negb writable)
+            (if negb writable && N.eqb (ser_cnt f) DIRTY then popcount bits else ser_cnt f) (Some b) 0) /\
+  rd (serialize f bits ++ junk) 32 (cap_bytes (f_cap f)) = bits.
+Proof.
+  intros f bits junk b writable Hc Hr He Hs. split; [now apply wrap_serialize|].
+  rewrite (serialize_nonempty _ _ He). now apply (parse_image f (ser_cnt f) bits junk false false false).
+Qed.
+
+(* the empty image (3 preamble longs, EMPTY flag) restores a fresh filter of the same configuration *)
+Theorem C15_deserialize_serialize_empty : forall f bits junk stream,
+  cfg_ok f -> f_nh f <> 0 -> f_cap f <= MAX_BITS -> is_empty f = true ->
+  deser_filt (serialize f bits ++ junk) stream = Some (mkF (f_seed f) (f_nh f) (f_cap f) false false 0 None 0) /\
+  wrap_filt (serialize f bits ++ junk) 0%Z false = Some (mkF (f_seed f) (f_nh f) (f_cap f) false false 0 None 0).
+Proof. exact deser_serialize_empty. Qed.
+
+(* no false negative THROUGH THE BYTES: any history as in C15_no_false_negative_in_any_view, then serialize, then
+   deserialize (bytes / stream) or wrap / writable_wrap of the bytes: query(x) = true in the restored filter *)
+Theorem C15_no_false_negative_through_bytes :
+  forall (H : list N -> N -> N) s0 pre ins post x junk,
+  let idx := indices_of H (s_f s0) in
+  let cap := f_cap (s_f s0) in
+  cfg_ok (s_f s0) -> f_nh (s_f s0) <> 0 ->
+  inv cap s0 -> f_ro (s_f s0) = false ->
+  inserts ins x -> Forall monotone post -> Forall (op_ok cap) (pre ++ ins :: post) ->
+  let s := frun true idx (pre ++ ins :: post) s0 in
+  let img := serialize (s_f s) (s_bits s) ++ junk in
+  (forall stream, exists g, deser_filt img stream = Some g /\ core_query g (f_bits g) (indices_of H g x) = true) /\
+  (forall b writable, exists g, wrap_filt img b writable = Some g /\
+                                core_query g (rd img 32 (cap_bytes (f_cap g))) (indices_of H g x) = true).
+Proof. exact nfn_through_bytes. Qed.
+
+(* ---------------------------------------------------------------------------------------------------------------- *)
+(* refusals (protocol step of the extracted model, ANY hash function) and capacity rounding                          *)
+(* ---------------------------------------------------------------------------------------------------------------- *)
+
+Theorem C15_incompatible_refused : forall fx H w r r2 fe ge,
+  reg_get (w_f w) r = Some fe -> reg_get (w_f w) r2 = Some ge -> compatible (e_f fe) (e_f ge) = false ->
+  wstep fx H w (OUnion r r2) = (w, (refused, [bz (f_ro (e_f fe)); 1]%Z)) /\
+  wstep fx H w (OIntersect r r2) = (w, (refused, [bz (f_ro (e_f fe)); 1]%Z)).
+Proof. exact wstep_union_incompatible. Qed.
+
+Theorem C15_readonly_write_refused : forall fx H w r fe x,
+  reg_get (w_f w) r = Some fe -> f_ro (e_f fe) = true -> x <> [] ->
+  wstep fx H w (OUpdate r x) = (w, (refused, [1]%Z)) /\
+  wstep fx H w (OQau r x) = (w, (refused, [1; 0; 0; 0]%Z)) /\
+  wstep fx H w (OReset r) = (w, (refused, [1; 0]%Z)).
+Proof. exact wstep_readonly_write_refused. Qed.
+
+Theorem C15_readonly_setop_refused : forall H w r r2 fe ge,
+  reg_get (w_f w) r = Some fe -> reg_get (w_f w) r2 = Some ge -> f_ro (e_f fe) = true ->
+  compatible (e_f fe) (e_f ge) = true ->
+  wstep true H w (OUnion r r2) = (w, (refused, [1; 0]%Z)) /\
+  wstep true H w (OIntersect r r2) = (w, (refused, [1; 0]%Z)) /\
+  wstep true H w (OInvert r) = (w, (refused, [1; 0]%Z)).
+Proof. exact wstep_readonly_setop_refused. Qed.
+
+Theorem C15_constructor_refusals : forall nbits nh seed,
+  nh = 0 \/ nbits = 0 \/ MAX_BITS < nbits -> new_owned nbits nh seed = None.
+Proof. exact new_owned_refusals. Qed.
+
+Theorem C15_writable_wrap_of_empty_image_refused : forall d b,
+  (8 <= length d)%nat -> N.land (nth 3 d 0) 4 <> 0 -> wrap_filt d b true = None.
+Proof. exact writable_wrap_empty_refused. Qed.
+
+(* compatible filters address the same bits for every item (so that union/intersect are meaningful) *)
+Theorem C15_compatible_same_indices : forall H f g x, compatible f g = true -> indices_of H f x = indices_of H g x.
+Proof. exact compatible_indices. Qed.
+
+(* capacity = requested size rounded up to the next multiple of 64; every index is below the capacity *)
+Theorem C15_capacity_rounding : forall nbits,
+  nbits + 63 < two64 -> nbits <= round_cap nbits /\ round_cap nbits < nbits + 64 /\ round_cap nbits mod 64 = 0.
+Proof. exact round_cap_props. Qed.
+
+Theorem C15_indices_below_capacity : forall H f x i, f_cap f <> 0 -> In i (indices_of H f x) -> i < f_cap f.
+Proof. exact indices_lt. Qed.
+
+(* ---------------------------------------------------------------------------------------------------------------- *)
+(* non-vacuity: a concrete filter over caller memory with the XXH64 instance; the history of the property text       *)
+(* (update through the view, then fresh wraps of the same memory) meets every hypothesis, and the conclusion is       *)
+(* informative (an item that was not inserted is reported absent)                                                     *)
+(* ---------------------------------------------------------------------------------------------------------------- *)
+Definition ex_s0 : cst := mkS (mkF 123 3 128 false false 0 (Some 101%Z) 0) 0 0.
+Definition ex_idx := indices_of xxh64 (s_f ex_s0).
+Definition ex_x : item := N_to_le_bytes 8 5.
+Definition ex_hist : list fop := [FQau (N_to_le_bytes 8 9); FUpdate ex_x; FBitsUsed; FUnion 1024; FQau ex_x].
+
+Example C15_nonvacuous :
+  let s := frun true ex_idx ex_hist ex_s0 in
+  squery ex_idx (wrap_view s true) ex_x = true /\ squery ex_idx (wrap_view s false) ex_x = true /\
+  squery ex_idx (deser_view s) ex_x = true /\ squery ex_idx (deser_view (ser_img s)) ex_x = true /\
+  squery ex_idx s (N_to_le_bytes 8 77) = false /\
+  forallb (fun i => i <? 128) (ex_idx ex_x) = true /\ length (ex_idx ex_x) = 3%nat /\
+  s_mcnt s = popcount (s_bits s) /\ s_mcnt (frun true ex_idx [FUpdate ex_x] ex_s0) = DIRTY.
+Proof. vm_compute. repeat split; reflexivity. Qed.
+
+(* byte level: the image of the example filter is 48 bytes, carries the count 6 at byte 24, and restores to the same bits *)
+Example C15_nonvacuous_bytes :
+  let s := frun true ex_idx ex_hist ex_s0 in
+  let img := serialize (s_f s) (s_bits s) in
+  length img = 48%nat /\ firstn 4 img = [4; 1; 21; 0] /\ rd img 24 8 = popcount (s_bits s) /\
+  cfg_ok (s_f s) /\ is_empty (s_f s) = false /\
+  (match deser_filt img true with Some g => core_query g (f_bits g) (ex_idx ex_x) | None => false end) = true /\
+  firstn 8 (skipn 24 (serialize (s_f (frun true ex_idx [FUpdate ex_x] ex_s0)) 0)) = repeat 255 8.
+Proof. vm_compute. repeat split; try reflexivity; try discriminate. Qed.
+
+Print Assumptions C15_no_false_negative_in_any_view.
+Print Assumptions C15_no_false_negative_any_index_function.
+Print Assumptions C15_fresh_start.
+Print Assumptions C15_memory_image_always_consistent.
+Print Assumptions C15_inserted_bits_stay_set.
+Print Assumptions C15_query_spec.
+Print Assumptions C15_bits_used_exact.
+Print Assumptions C15_query_and_update_prior_membership.
+Print Assumptions C15_union_is_or.
+Print Assumptions C15_intersect_is_and.
+Print Assumptions C15_invert_is_not.
+Print Assumptions C15_reset_clears.
+Print Assumptions C15_deserialize_serialize.
+Print Assumptions C15_wrap_serialize.
+Print Assumptions C15_deserialize_serialize_empty.
+Print Assumptions C15_no_false_negative_through_bytes.
+Print Assumptions C15_incompatible_refused.
+Print Assumptions C15_readonly_write_refused.
+Print Assumptions C15_readonly_setop_refused.
+Print Assumptions C15_constructor_refusals.
+Print Assumptions C15_writable_wrap_of_empty_image_refused.
+Print Assumptions C15_compatible_same_indices.
+Print Assumptions C15_capacity_rounding.
+Print Assumptions C15_indices_below_capacity.
